@@ -238,7 +238,7 @@ def gen(rnd, *, core=False, res_choices=(60, 60, 30, 15), subslot=True, alap=Non
             bs = []
             for _ in range(rnd.randint(1, 2)):
                 s = base + timedelta(days=rnd.randrange(0, max(2, min(14, span_days))), minutes=rnd.randrange(0, 24 * 60, res))
-                bs.append((s, rnd.choice([res, 2 * res, 6 * 60, 24 * 60, 3 * res])))
+                bs.append((s, rnd.choice([res, 2 * res, 6 * 60, 24 * 60, 3 * res, 2 * 24 * 60, 3 * 24 * 60])))
             r["bookings"] = bs
         if limits and rnd.random() < 0.3:
             r["limits"] = {rnd.choice(["dailymax", "weeklymax"]): rnd.choice([1, 2, 3, 4, 6])}
@@ -277,6 +277,20 @@ def gen(rnd, *, core=False, res_choices=(60, 60, 30, 15), subslot=True, alap=Non
             s = base + timedelta(days=rnd.randrange(0, max(2, min(14, span_days))))
             vs.append((s, None) if rnd.random() < 0.6 else (s, s + timedelta(days=rnd.randint(1, 3))))
         m["vacations"] = vs
+    if leaves and rnd.random() < 0.2:
+        # project-level 'leaves <type> "name" a - b' (whole days, half days with slot-aligned instants, single day)
+        gl = []
+        for _ in range(rnd.randint(1, 2)):
+            s = base + timedelta(days=rnd.randrange(0, max(2, min(14, span_days))))
+            k = rnd.random()
+            if k < 0.4:
+                a = s + timedelta(minutes=rnd.randrange(0, 18 * 60, res))
+                gl.append((rnd.choice(["holiday", "special"]), a, a + timedelta(minutes=rnd.choice([res, 4 * 60, 3 * res, 8 * 60]))))
+            elif k < 0.7:
+                gl.append(("holiday", s, None))
+            else:
+                gl.append((rnd.choice(["holiday", "annual"]), s, s + timedelta(days=rnd.randint(1, 3))))
+        m["gleaves"] = gl
     # tasks
     tasks = []
     n = rnd.randint(*ntasks)
@@ -458,6 +472,8 @@ def render(m, refrnd=None, precrnd=None, extra_header=None, scenarios=None, trai
     L.append("}")
     for s, e in m.get("vacations", []):
         L.append('vacation "V" %s' % (fmt_dt(s) if e is None else "%s - %s" % (fmt_dt(s), fmt_dt(e))))
+    for typ, s, e in m.get("gleaves", []):
+        L.append('leaves %s "GL" %s' % (typ, d_full(s) if e is None else "%s - %s" % (d_full(s), d_full(e))))
     for sid, specs in m["shifts"].items():
         L.append('shift %s "%s" {' % (sid, sid))
         for s in spec_text(specs):
@@ -480,7 +496,9 @@ def render(m, refrnd=None, precrnd=None, extra_header=None, scenarios=None, trai
         for s, e in r.get("vacs", []):
             L.append("%s  vacation %s" % (ind, fmt_dt(s) if e is None else "%s - %s" % (fmt_dt(s), fmt_dt(e))))
         for s, mins in r.get("bookings", []):
-            L.append('%s  booking "B" %s +%s' % (ind, d_full(s), ("%dh" % (mins // 60)) if mins % 60 == 0 else ("%dmin" % mins)))
+            # every unit the grammar knows: whole calendar days as 'd', whole hours as 'h', else minutes (seeded change C02-b)
+            dur = ("%dd" % (mins // 1440)) if mins % 1440 == 0 else (("%dh" % (mins // 60)) if mins % 60 == 0 else ("%dmin" % mins))
+            L.append('%s  booking "B" %s +%s' % (ind, d_full(s), dur))
         if r.get("limits"):
             L.append("%s  %s" % (ind, limits_text(r["limits"])))
         if r.get("rate") is not None:
